@@ -4,6 +4,7 @@ import Mathlib.Tactic.FieldSimp
 import Mathlib.Tactic.NormNum
 import Mathlib.Tactic.LinearCombination
 import Mathlib.Algebra.Order.Field.Basic
+import Mathlib.Tactic.Linarith
 /-!
 Algebraic facts about the vertex-placement rules, proved over every field
 (so for ℚ — the exact mode the driver executes — and ℝ).
@@ -115,5 +116,28 @@ same edge points; the Go code orders the end points so that this also holds in f
 theorem lerp3_symm (c1 c2 : V3 K) (t : K) : lerp3 c1 c2 t = lerp3 c2 c1 (1 - t) := by
   simp only [lerp3, V3.add, V3.scale, V3.mk.injEq]
   refine ⟨?_, ?_, ?_⟩ <;> ring
+
+/-! ### Nearly colinear vertex removal -/
+
+/-- Lagrange: `cross² + dot² = |d1|²|d2|²`. -/
+theorem cross_sq_add_dot_sq (d1 d2 : V2 K) :
+    V2.cross d1 d2 * V2.cross d1 d2 + (d1.x * d2.x + d1.y * d2.y) * (d1.x * d2.x + d1.y * d2.y)
+      = (d1.x * d1.x + d1.y * d1.y) * (d2.x * d2.x + d2.y * d2.y) := by
+  simp only [V2.cross]; ring
+
+/-- If the two segments at a vertex meet the criterion `1 - cos(turn) ≤ ε` (`L = |d1||d2|`,
+`cos = dot / L`), removing the vertex changes twice the enclosed area — `cross d1 d2`, see
+`cross_bridge` — by at most `√(2ε)·|d1||d2|` (stated squared). -/
+theorem nearly_colinear_cross_bound [LinearOrder K] [IsStrictOrderedRing K] (d1 d2 : V2 K) (L eps : K)
+    (hL : 0 ≤ L) (hL2 : L * L = (d1.x * d1.x + d1.y * d1.y) * (d2.x * d2.x + d2.y * d2.y))
+    (h0 : 0 ≤ eps) (h1 : eps ≤ 1) (hcrit : (1 - eps) * L ≤ d1.x * d2.x + d1.y * d2.y) :
+    V2.cross d1 d2 * V2.cross d1 d2 ≤ 2 * eps * (L * L) := by
+  have hlag := cross_sq_add_dot_sq d1 d2
+  have hq : 0 ≤ (1 - eps) * L := mul_nonneg (by linarith) hL
+  have hsq : (1 - eps) * L * ((1 - eps) * L) ≤
+      (d1.x * d2.x + d1.y * d2.y) * (d1.x * d2.x + d1.y * d2.y) :=
+    mul_le_mul hcrit hcrit hq (le_trans hq hcrit)
+  have hLL : 0 ≤ L * L := mul_nonneg hL hL
+  nlinarith [mul_nonneg (mul_nonneg h0 h0) hLL]
 
 end M3d.MeshOps
